@@ -511,7 +511,7 @@ def gen_cases(chk):
         return ref
 
     # --- 1. random trees: render, copy, render the copy, mutate the original deep inside, render both again
-    for i in range(6000 if thorough else 500):
+    for i in range(30000 if thorough else 500):
         b = Builder(g)
         depth = rng.choice([1, 2, 2, 3, 3, 4])
         root = b.tree(depth, rng.choice([1, 2, 3, 4]))
@@ -538,7 +538,7 @@ def gen_cases(chk):
                 b.ops += [("C", cc, cp), ("P", cc)]
         add(b.ops, "random-tree")
     # --- 2. deep / wide
-    for i in range(1500 if thorough else 120):
+    for i in range(5000 if thorough else 120):
         b = Builder(g)
         root = b.tree(rng.choice([5, 6, 7, 8]), rng.choice([2, 3, 6]), budget=[rng.choice([40, 150, 400])])
         b.ops += [("P", root), ("D", root)]
@@ -555,7 +555,7 @@ def gen_cases(chk):
     # --- 3. sizes steered around the first buffer (1024) and far above it
     targets = list(range(1000, 1101)) if thorough else list(range(1015, 1035)) + [1000, 1100, 1050]
     targets += [2047, 2048, 2049, 4095, 4096, 4097, 5000, 8191, 8192, 8193, 12000, 20000] if thorough else [2048, 4097, 9000]
-    reps = 6 if thorough else 2
+    reps = 12 if thorough else 2
     for target in targets:
         for rep in range(reps):
             b = Builder(g)
@@ -613,7 +613,7 @@ def gen_cases(chk):
         b.ops.append(("P", root))
         add(b.ops, "size-near-1024")
     # --- 4. many attributes: collisions, overwrites, deletions
-    for i in range(2500 if thorough else 200):
+    for i in range(10000 if thorough else 200):
         b = Builder(g)
         root = b.elem()
         keys = b.random_attrs(root, rng.choice([6, 10, 16, 30, 40]))
@@ -644,7 +644,7 @@ def gen_cases(chk):
                         b.attr(h, XMLNS, v)
                 b.ops += [("c", h1, h2), ("c", h0, h1), ("c", h2, h3), ("c", h2, b.textnode(b"t")), ("P", h0), ("D", h0)]
                 add(b.ops, "ns-chain")
-    for i in range(2500 if thorough else 200):
+    for i in range(10000 if thorough else 200):
         b = Builder(g)
         pool = [rng.choice(NS_POOL) for _ in range(rng.choice([1, 2, 3]))] + [NS_CLIENT]
         sv = list(NS_POOL)
@@ -671,7 +671,7 @@ def gen_cases(chk):
                     b.attr(h, XMLNS, v)
             b.ops += [("c", h1, h2), ("c", h0, h1), ("P", h1), ("P", h2), ("P", h0)]
             add(b.ops, "sub-render")
-    for i in range(1200 if thorough else 120):
+    for i in range(8000 if thorough else 120):
         b = Builder(g)
         root = b.tree(rng.choice([2, 3, 4]), rng.choice([2, 3]), p_ns=0.6)
         ref = run_ref(b.ops)
@@ -720,7 +720,7 @@ def gen_cases(chk):
         b.ops += [("f", h, b"changed@later"), ("o", h, b"other@later"), ("P", r1), ("P", r2), ("P", h)]
         b.ops += [("E", r3, h, g.text(True, 5), g.name(), txt), ("P", r3)]
         add(b.ops, "reply")
-    for i in range(400 if thorough else 40):
+    for i in range(3000 if thorough else 40):
         b = Builder(g)
         h = stanza(b, rng.random() < 0.5, rng.random() < 0.5)
         r1, r2 = b.next, b.next + 1
@@ -761,7 +761,7 @@ def gen_cases(chk):
             b.ops.append(("c", root, b.textnode(w)))
             b.ops.append(("P", root))
             add(b.ops, "escape-exhaustive")
-    for i in range(1500 if thorough else 150):
+    for i in range(8000 if thorough else 150):
         b = Builder(g)
         root = b.elem()
         for _ in range(rng.randrange(1, 7)):
@@ -787,7 +787,7 @@ def gen_cases(chk):
         b.ops.append(("P", root))
         add(b.ops, "every-byte")
     # --- 8. API misuse (the error returns; nothing may crash)
-    for i in range(600 if thorough else 60):
+    for i in range(5000 if thorough else 60):
         b = Builder(g)
         hs = [b.new() for _ in range(rng.randrange(1, 5))]
         for _ in range(rng.randrange(3, 14)):
